@@ -504,8 +504,10 @@ class C18(Prop):
             if e["k"] == "clock" and e["c"] is not None and e["c"] != c0 + e["t"]:
                 fails.append(("clock", "engine clock %d at %d, expected %d" % (e["c"], e["t"], c0 + e["t"])))
         seg = []
+        hist = []
         seen = {}
         for e in ev:
+            hist.append(e)
             if e["k"] != "res":
                 seg.append(e)
                 continue
@@ -518,16 +520,24 @@ class C18(Prop):
                     fails.append(("must-fail", "synchronisation reported successful although %s (token %s)" % (must, tok)))
                 if exp.startswith("err"):
                     fails.append(("must-fail", "synchronisation reported successful, the scripted history makes it fail with '%s'" % exp))
-                fails += self.check_success(m, proc, c0, tok, seg)
+                fails += self.check_success(m, proc, c0, tok, seg, hist if m.get("loose") else seg)
             seg = []
         for tok in m.get("expect", {}):
             if tok not in seen:
                 fails.append(("one-outcome", "no outcome reported for synchronisation %s" % tok))
         return fails
 
-    def check_success(self, m, proc, c0, tok, seg):
-        """a synchronisation was reported successful: `seg` = everything observed since the previous outcome"""
+    def check_success(self, m, proc, c0, tok, seg, hist):
+        """a synchronisation was reported successful: `seg` = everything observed since the previous outcome;
+        `hist` = the part of the history whose requests may have reached the outstation before the time was
+        written (with stale duplicates in play that is everything so far)"""
         fails = []
+        # a fragment injected at the master that carries the sequence number of a pending request is not
+        # "unrelated traffic": the master cannot tell it from the outstation's answer (4-bit sequence, no
+        # authentication), so nothing is claimed about an exchange that it may have completed
+        pend = set(e["hex"][1] for e in seg if e["k"] == "m2o" and e["hex"][2:4] in ("02", "17", "18"))
+        if any(e["k"] == "inj" and e["hex"][2:4] == "81" and e["hex"][1] in pend for e in seg):
+            return []
         written = [e for e in seg if e["k"] == "written"]
         if not written:
             return [("written", "success reported but the outstation application was never handed a time (token %s)" % tok)]
@@ -536,20 +546,24 @@ class C18(Prop):
             fails.append(("range", "written time %d outside 48 bits" % w["ts"]))
         err = (c0 + w["t"]) - w["ts"]        # master clock at the instant of writing minus written time
         reqs = [e for e in seg if e["k"] == "m2o" and e["arrive"] is not None]
+        allreqs = [e for e in hist if e["k"] == "m2o" and e["arrive"] is not None and e["arrive"] <= w["t"]]
         fn = lambda e: e["hex"][2:4]
         fwd = lambda e: e["arrive"] - e["send"]
         # the response that completed the task must not have indicated NEED_TIME, must be FIR|FIN, no objects
         resp = [e for e in seg if e["k"] == "o2m" and e["arrive"] is not None and e["hex"][2:4] == "81"]
-        if resp:
-            last = resp[-1]["hex"]
-            wreq = [e for e in reqs if fn(e) == "02"]
-            if wreq and int(last[1], 16) == int(wreq[-1]["hex"][1], 16):
+        wreq = [e for e in reqs if fn(e) == "02"]
+        if wreq:
+            # the response the master acted on: the first one to reach it that answers the last WRITE
+            resp = [e for e in resp if e["hex"][1] == wreq[-1]["hex"][1] and e["arrive"] >= wreq[-1]["arrive"]]
+        if resp and wreq:
+            last = min(enumerate(resp), key=lambda x: (x[1]["arrive"], x[0]))[1]["hex"]
+            if True:
                 if int(last[4:6], 16) & 0x10:
                     fails.append(("must-fail", "success reported although the final response still indicates NEED_TIME"))
                 if len(last) > 8:
                     fails.append(("must-fail", "success reported although the final response carries objects"))
         if proc == "lan":
-            rec = [fwd(e) for e in reqs if fn(e) == "18"]
+            rec = [fwd(e) for e in allreqs if fn(e) == "18"]
             if not rec:
                 return fails + [("written", "LAN success without RECORD_CURRENT_TIME")]
             bound = max(rec)
@@ -557,7 +571,7 @@ class C18(Prop):
                 fails.append(("lan-error", "written %d at instant %d, master clock %d: error %d > forward delay %d"
                               % (w["ts"], w["t"], c0 + w["t"], err, bound)))
         elif proc == "direct":
-            wr = [fwd(e) for e in reqs if fn(e) == "02"]
+            wr = [fwd(e) for e in allreqs if fn(e) == "02"]
             bound = max(wr) if wr else 0
             if abs(err) > bound:
                 fails.append(("direct-error", "written %d at instant %d, master clock %d: error %d > forward delay %d"
